@@ -1073,7 +1073,7 @@ def run(ctx, out, replay=None):
     n_proof = 40 if quick else 400
     n_proof_coinc = 6 if quick else 60
     n_float = 120_000 if quick else 4_000_000
-    n_coinc = 24_000 if quick else 400_000
+    n_coinc = 24_000 if quick else 300_000
     n_traj = 2_000 if quick else 40_000
     out.rule = (
         "two streams. (1) proof stream: random discs (radii 1e-3..1e6, mantissas of 6..52 bits; generic and axis-aligned "
